@@ -19,9 +19,9 @@ def run(ctx):
     r, it = M.mc(ctx, "MetaDB_map.cfg", "map", {"MaxOps": "= 3"}, INV, "", export=True)
     items += M.sample(ctx, it, 3000 if th else 300, 3)
     if th:
-        M.mc(ctx, "MetaDB_mix.cfg", "mix deep", {"MaxOps": "= 4"}, INV, "", timeout=3000, coverage=True)
-        M.mc(ctx, "MetaDB_ent.cfg", "ent deep", {"MaxOps": "= 4"}, INV, "", timeout=3000)
-        M.mc(ctx, "MetaDB_map2.cfg", "map2 deep", {"MaxOps": "= 5"}, INV, "", timeout=3000)
+        M.mc(ctx, "MetaDB_mix.cfg", "mix deep", {"MaxOps": "= 4"}, INV, "", timeout=7200, coverage=True)
+        M.mc(ctx, "MetaDB_ent.cfg", "ent deep", {"MaxOps": "= 4"}, INV, "", timeout=7200)
+        M.mc(ctx, "MetaDB_map2.cfg", "map2 deep", {"MaxOps": "= 5"}, INV, "", timeout=7200)
         # the invariant is live: the rename defect switched back on must break it, and without the
         # ResetFlood exception it must break through ResetFlood
         M.expect_model_violation(ctx, "MetaDB_ent.cfg", "bug replay-rename", {"Bugs": '= {"replay-rename"}', "MaxOps": "= 2"},
